@@ -640,20 +640,7 @@ func checkC11Anchors(c *Ctx) {
 	checkStringValWriters(c, f)
 	// the text the emitters produce reaches the file as emitted: no pass rewrites the program text afterwards
 	c.checkPins(f, "C11.anchor", c04ImportPins[:1])
-	if _, fn := f.NF("transpileOne"); fn != nil {
-		okW, nW := true, 0
-		ir.Walk(f.N.Func(fn), func(t ir.Term) bool {
-			if app, ok := isCallTo(t, sysPath+".WriteFile"); ok && len(app.Args) == 2 {
-				nW++
-				if !strictlyContains(f.Path, app.Args[1], "RootStmtsToGo(#1(ParseAll(psSetNewSrc(#0(sys.ReadFile(p1)), p0))))") {
-					okW = false
-				}
-			}
-			return true
-		})
-		r.Check(okW && nW >= 1, "C11.anchor", "transpileOne", "written-text", c.Pos(f.M.Fset, fn.Decl.Pos()), "the text written is RootStmtsToGo's (possibly with a head or a tail added)",
-			"the text written is not what the emitters produced: a pass between the emitters and the file can re-encode the literals")
-	}
+	checkWrittenTextIsEmitted(c, f, "C11.anchor")
 	// the text the scanners read is the file's content: nothing rewrites the source between sys.ReadFile and the tokenizer
 	forwarders := map[string]bool{"psSetNewSrc": true, "newTkz": true, "initParse": true}
 	nsrc := 0
@@ -787,4 +774,26 @@ func checkStringValWriters(c *Ctx, f *FC) {
 	r.Check(len(extra) == 0 && len(writers) >= 4, "C11.anchor", "Token.stringVal", "who-may-write", "fc/wrapper.go",
 		"the text of a token is written only by its constructor or scanner ("+strings.Join(sortedKeysB(writers), ", ")+")",
 		"Token.stringVal is also written by "+strings.Join(extra, ", ")+": the text of a literal is rewritten after its scanner produced it, outside the byte-class discipline C11.a-c decide")
+}
+
+// checkWrittenTextIsEmitted: the content handed to sys.WriteFile is RootStmtsToGo's result (possibly with a head or
+// a tail added) — no pass between the emitters and the file rewrites the program text.
+func checkWrittenTextIsEmitted(c *Ctx, f *FC, rule string) {
+	r := c.R
+	if _, fn := f.NF("transpileOne"); fn != nil {
+		okW, nW := true, 0
+		ir.Walk(f.N.Func(fn), func(t ir.Term) bool {
+			if app, ok := isCallTo(t, sysPath+".WriteFile"); ok && len(app.Args) == 2 {
+				nW++
+				if !strictlyContains(f.Path, app.Args[1], "RootStmtsToGo(#1(ParseAll(psSetNewSrc(#0(sys.ReadFile(p1)), p0))))") {
+					okW = false
+				}
+			}
+			return true
+		})
+		r.Check(okW && nW >= 1, rule, "transpileOne", "written-text", c.Pos(f.M.Fset, fn.Decl.Pos()), "the text written is RootStmtsToGo's (possibly with a head or a tail added)",
+			"the text written is not what the emitters produced: a pass between the emitters and the file rewrites the program text (re-encoded literals, dropped imports, …)")
+	} else {
+		r.Undecided(rule, "transpileOne", "definition", "fc", "anchor function not found")
+	}
 }
